@@ -88,6 +88,9 @@ func (w *World) Links() []*Link { return w.links }
 // SetNodeIP registers the address used as local IP for dials made by node.
 func (w *World) SetNodeIP(node string, ip net.IP) { w.nodeIP[node] = ip }
 
+// NodeIP returns the registered address of node (nil if none).
+func (w *World) NodeIP(node string) net.IP { return w.nodeIP[node] }
+
 func (w *World) ipOf(node string) net.IP {
 	if ip, ok := w.nodeIP[node]; ok {
 		return ip
